@@ -146,6 +146,15 @@ pub fn observe(_ctx: &Ctx, st: &mut Stats, rj: &RJob) {
             return;
         }
     };
+    // every third render is preceded, on the same thread, by a render of the same symbol with MORE shape layers and
+    // other colours (result discarded): whatever a renderer keeps between calls must not leak into the next image
+    if rj.job.seed % 3 == 0 {
+        let mut primer = rj.spec.clone();
+        primer.layers = vec![(1, Some(Colour::Rgb([200, 30, 30]))), (5, None), (3, Some(Colour::Rgba([0, 90, 200, 255])))];
+        primer.module_color = Some(Colour::Rgb([10, 120, 10]));
+        let _ = adapter::guarded(|| primer.svg_builder().to_str(&qr));
+        st.count("multi_layer_renders_before_the_measured_one", 1);
+    }
     let fail = |st: &mut Stats, kind: &str, detail: String| {
         st.violation(ID, kind, format!("{detail} [qr {}; spec {}]", cfg.describe(), rj.spec.describe()), rj.to_json());
     };
